@@ -579,11 +579,14 @@ theorem recOK_insert_auto (rec : Fields) (i : Str) (nd : (dkeys rec).Nodup) (hg 
   refine ⟨⟨by rw [hr]; exact hid, nodup_dkeys_dset _ _ _ nd, ?_⟩, hr⟩
   rw [dpop_dset_self]; exact hg
 
-theorem redis_insert_refines (ks : RState) (rs : RefState) (hrel : RelR ft Good ks rs) (coll : Str) (rec : Fields)
+/-- insert, strong form: the same answer in every case — the id, or the in-contract errors `Err.dup` and
+`Err.badId` — and related states (the reference state is unchanged on an error, the server at most re-writes the
+same collection entry). -/
+theorem redis_insert_refines_strong (ks : RState) (rs : RefState) (hrel : RelR ft Good ks rs) (coll : Str) (rec : Fields)
     (hop : OpOK Good (.insert coll rec)) :
     let kr := Redis.step Fix.repaired ft ks (.insert coll rec)
     let rr := Ref.step rs (match kr.2 with | .id n => n | _ => []) (.insert coll rec)
-    rr.2 ≠ .err .notFresh ∧ ((∃ e, rr.2 = .err e) ∨ (kr.2 = normRes rr.2 ∧ RelR ft Good kr.1 rr.1)) := by
+    rr.2 ≠ .err .notFresh ∧ kr.2 = normRes rr.2 ∧ RelR ft Good kr.1 rr.1 := by
   have hc := hrel coll
   obtain ⟨hnd, hgood⟩ := hop
   have hbody : dget kId (dpop kId rec) = none := body_no_id rec hnd
@@ -608,7 +611,7 @@ theorem redis_insert_refines (ks : RState) (rs : RefState) (hrel : RelR ft Good 
     have hcf' : (aget {} coll ks : RColl).ids.contains nx.1 = false := contains_false_iff.mpr h0
     obtain ⟨hok, hid⟩ := recOK_insert_auto Good rec nx.1 hnd hgood
     simp only [Redis.step, Ref.step, hidv, hnx, hcf, hcf', hdb, Bool.false_eq_true, if_false]
-    refine ⟨by simp, Or.inr ⟨by simp [normRes], ?_⟩⟩
+    refine ⟨by simp, by simp [normRes], ?_⟩
     exact store _ _ _ (RelRC.seq ft Good hc _) hfresh hok hid (dpop_dset_self _ _ _)
   | some v =>
     cases v with
@@ -620,25 +623,34 @@ theorem redis_insert_refines (ks : RState) (rs : RefState) (hrel : RelR ft Good 
       have hcf' : (aget {} coll ks : RColl).ids.contains nx.1 = false := contains_false_iff.mpr h0
       obtain ⟨hok, hid⟩ := recOK_insert_auto Good rec nx.1 hnd hgood
       simp only [Redis.step, Ref.step, hidv, hnx, hcf, hcf', hdb, Bool.false_eq_true, if_false]
-      refine ⟨by simp, Or.inr ⟨by simp [normRes], ?_⟩⟩
+      refine ⟨by simp, by simp [normRes], ?_⟩
       exact store _ _ _ (RelRC.seq ft Good hc _) hfresh hok hid (dpop_dset_self _ _ _)
     | str i =>
       by_cases hm : i ∈ (aget [] coll rs : Coll).ids
       · have h2 : (aget [] coll rs : Coll).ids.contains i = true := contains_iff.mpr hm
-        simp only [Ref.step, hidv, h2, if_true]
-        exact ⟨by simp, Or.inl ⟨_, rfl⟩⟩
+        have h2' : (aget {} coll ks : RColl).ids.contains i = true := by rw [hc.ids]; exact h2
+        simp only [Redis.step, Ref.step, hidv, h2, h2', if_true]
+        exact ⟨by simp, by simp [normRes], RelR.aset_left ft Good hrel coll _ hc⟩
       · have h2 : (aget [] coll rs : Coll).ids.contains i = false := contains_false_iff.mpr hm
         have h2' : (aget {} coll ks : RColl).ids.contains i = false := by rw [hc.ids]; exact h2
         have hok : RecOK Good rec := ⟨by rw [recId_of _ _ hidv]; exact hidv, hnd, hgood⟩
         simp only [Redis.step, Ref.step, hidv, h2, h2', hdb, Bool.false_eq_true, if_false]
-        refine ⟨by simp, Or.inr ⟨by simp [normRes], ?_⟩⟩
+        refine ⟨by simp, by simp [normRes], ?_⟩
         exact store _ _ _ hc hm hok (recId_of _ _ hidv) rfl
-    | bool b => simp [Ref.step, hidv]
-    | int b => simp [Ref.step, hidv]
-    | num b => simp [Ref.step, hidv]
-    | date a b => simp [Ref.step, hidv]
-    | arr b => simp [Ref.step, hidv]
-    | obj b => simp [Ref.step, hidv]
+    | bool b => simp only [Redis.step, Ref.step, hidv]; exact ⟨by simp, by simp [normRes], hrel⟩
+    | int b => simp only [Redis.step, Ref.step, hidv]; exact ⟨by simp, by simp [normRes], hrel⟩
+    | num b => simp only [Redis.step, Ref.step, hidv]; exact ⟨by simp, by simp [normRes], hrel⟩
+    | date a b => simp only [Redis.step, Ref.step, hidv]; exact ⟨by simp, by simp [normRes], hrel⟩
+    | arr b => simp only [Redis.step, Ref.step, hidv]; exact ⟨by simp, by simp [normRes], hrel⟩
+    | obj b => simp only [Redis.step, Ref.step, hidv]; exact ⟨by simp, by simp [normRes], hrel⟩
+
+theorem redis_insert_refines (ks : RState) (rs : RefState) (hrel : RelR ft Good ks rs) (coll : Str) (rec : Fields)
+    (hop : OpOK Good (.insert coll rec)) :
+    let kr := Redis.step Fix.repaired ft ks (.insert coll rec)
+    let rr := Ref.step rs (match kr.2 with | .id n => n | _ => []) (.insert coll rec)
+    rr.2 ≠ .err .notFresh ∧ ((∃ e, rr.2 = .err e) ∨ (kr.2 = normRes rr.2 ∧ RelR ft Good kr.1 rr.1)) :=
+  have h := redis_insert_refines_strong ft Good ks rs hrel coll rec hop
+  ⟨h.1, Or.inr h.2⟩
 
 end redis3
 
